@@ -201,7 +201,9 @@ class Harness:
             if w.loop.exceptions:
                 out.add("loop-exception", f"exception reached the loop handler: {w.loop.exceptions[0]}")
             out.digest = w.digest()
-            out.interleaving = w.interleaving_digest()
+            # these properties quantify over histories: two runs are the same case only when the whole event log
+            # (datagram contents, delivery instants, callbacks) is the same
+            out.interleaving = w.digest()[:16]
             out.sim_seconds = w.now - w.t0
             out.decisions = w.dec.recorded
             out.stats.update({f"fault_{k}": v for k, v in w.net.fault_counts.items()})
